@@ -406,6 +406,7 @@ def run(ctx):
 
     _c11.r11_9_convention_is_asked_for(ctx)  # the convention a routine is evaluated for is the compile's own option (shared with C11)
     _c10.r10_1_assignment(ctx)  # with the slot optimiser off nothing cancels a temporary that was given a user-reserved index (shared with C10)
+    _c10.r10_2_identity(ctx)  # the skip set is built from isReservedSlot: every requested id (0 included) must set it, or the optimiser deletes stores to a cell the user numbered (shared with C10)
     return (
         "Abstract evaluation of the slot optimiser's own code (skip-set construction, dependency scan, cancellation + deletion) on abstract block graphs and on all short "
         "op sequences, results compared through an abstract stack machine; defaults table of OptimizeOptions against the documentation; wiring of the optimiser in _compile_impl. "
